@@ -130,7 +130,8 @@ impl Storage {
                     "failed loading block from disk : {:?}",
                     result.err().unwrap()
                 );
-                return;
+                // one unreadable file must not hide the blocks stored after it
+                continue;
             }
             debug!("file : {:?} loaded", file_name);
             let buffer: Vec<u8> = result.unwrap();
@@ -139,14 +140,21 @@ impl Storage {
             if result.is_err() {
                 // ideally this shouldn't happen since we only write blocks which are valid to disk
                 warn!(
-                    "failed deserializing block with buffer length : {:?}",
-                    buffer_len
+                    "failed deserializing block file : {:?} with buffer length : {:?}. skipping it",
+                    file_name, buffer_len
                 );
-                return;
+                // a file cut short by a crash must not hide the blocks stored after it
+                continue;
             }
             let mut block: Block = result.unwrap();
             block.force_loaded = true;
-            block.generate().unwrap();
+            if block.generate().is_err() {
+                warn!(
+                    "failed generating block data for file : {:?}. skipping it",
+                    file_name
+                );
+                continue;
+            }
             debug!("block : {:?} loaded from disk", block.hash.to_hex());
             mempool.add_block(block);
         }
